@@ -505,12 +505,27 @@ def impl(case):
     out['nil'] = {'makelist': yp.makelist([]) is yp.ATOM_NIL, 'atom': yp.atom('[]') is yp.ATOM_NIL,
                   'topy': [enc(E.to_python(yp.ATOM_NIL)), enc(E.to_python(yp.makelist([]))), enc(yp.atom('[]').to_python())],
                   'other': yp.ATOM_NIL is not yp2.ATOM_NIL, 'cross': _succeeds(E, yp.ATOM_NIL, yp2.makelist([]))[0],
+                  'after_clear': _nil_after_clear(E, case),
                   'raw': [enc(E.to_python(v)) for v in (0, 7, -3, 10 ** 30, 'text', '', None)],
                   'raw_unify': [_succeeds(E, 7, 7)[0], _succeeds(E, 7, 8)[0], _succeeds(E, 7, yp.atom('7'))[0], _succeeds(E, yp.atom('7'), 7)[0],
                                 _succeeds(E, X, 7, lambda: enc(E.to_python(X)))]}
     return out
 
-NIL_WANT = {'makelist': True, 'atom': True, 'topy': [['l'], ['l'], ['l']], 'other': True, 'cross': 1,
+def _nil_after_clear(E, case):
+    """one object per name and engine also after clear(): the atom table is new, and the empty list - however it is
+    obtained: atom('[]'), ATOM_NIL, makelist([]), a compiled [] - and every other atom is one object again"""
+    from yldprolog import compiler
+    yp3 = E.YP()
+    held = yp3.atom('held')
+    yp3.clear()
+    yp3.load_script_from_string(compiler.compile_prolog_from_string("nil3([]).\nheld3(held).\n", ast_io.Ctx))
+    X = yp3.variable(); Y = yp3.variable()
+    return [yp3.atom('[]') is yp3.ATOM_NIL, yp3.makelist([]) is yp3.atom('[]'), yp3.eval_context.get('ATOM_NIL') is yp3.ATOM_NIL,
+            [E.get_value(X) is yp3.atom('[]') for _ in yp3.query('nil3', [X])],
+            [E.get_value(Y) is yp3.atom('held') for _ in yp3.query('held3', [Y])],
+            _succeeds(E, held, yp3.atom('held'))[0]]
+
+NIL_WANT = {'after_clear': [True, True, True, [True], [True], 1], 'makelist': True, 'atom': True, 'topy': [['l'], ['l'], ['l']], 'other': True, 'cross': 1,
             'raw': [0, 7, -3, 10 ** 30, 'text', '', None], 'raw_unify': [1, 0, 0, 0, [1, 7]]}
 
 def allow_harness_raise(case, io):
